@@ -12,6 +12,8 @@ import NR.Format
 import NR.Gen
 import NR.Coll
 import NR.Estimate
+import NR.WaitEst
+import NR.Seq
 namespace NR.Driver
 open NR
 
@@ -202,8 +204,43 @@ def stepColl (c : CollSt) (ws : List String) : CollSt × String :=
 
 /-- `est max <regime> <max> <base> <win> <tail> <oldCumNext> <oldLast> <hasNeg> <delta>`: the verdict of
 `maximumImpl.EstimateIsViolated` recomputed by NR.Estimate (1 = violated). -/
+def parseWaitItem (s : String) : Option WaitEst.Item :=
+  match s.splitOn ";" with
+  | [tr, du, pl, mw, ca, ce, cp, ws] =>
+    let wins : Option (List (Rat × Rat)) :=
+      if ws = "-" then some []
+      else allSome ((ws.splitOn ",").map (fun w =>
+        match w.splitOn "~" with
+        | [a, b] => (match parseRat? a, parseRat? b with
+          | some a, some b => some (a, b)
+          | _, _ => none)
+        | _ => none))
+    match parseRat? tr, parseRat? du, parseRat? mw, parseRat? ca, parseRat? ce, parseRat? cp, wins with
+    | some tr, some du, some mw, some ca, some ce, some cp, some wins =>
+      some { travel := tr, windows := wins, dur := du, planned := (pl = "1"), maxWait := mw, cArr := ca, cEnd := ce, cPrevAcc := cp }
+    | _, _, _, _, _, _, _ => none
+  | _ => none
+
+/-- `est waitv <max> <lastAcc> <timeDep> <pe> <acc> <cnt> <items>` / `est waits <timeDep> <pe> <cnt> <items>`:
+the verdicts of the two waiting-time estimates recomputed by NR.WaitEst (1 = violated). -/
+def stepEstWait (ws : List String) : String :=
+  match ws with
+  | "waitv" :: mx :: la :: td :: pe :: acc :: cnt :: items =>
+    match parseRat? mx, parseRat? la, parseRat? pe, parseRat? acc, cnt.toNat?, allSome (items.map parseWaitItem) with
+    | some mx, some la, some pe, some acc, some cnt, some items =>
+      "est " ++ (if WaitEst.estVehicle mx la (td = "1") pe acc cnt items then "1" else "0")
+    | _, _, _, _, _, _ => "bad-op"
+  | "waits" :: td :: pe :: cnt :: items =>
+    match parseRat? pe, cnt.toNat?, allSome (items.map parseWaitItem) with
+    | some pe, some cnt, some items =>
+      "est " ++ (if WaitEst.estStop (td = "1") pe cnt items then "1" else "0")
+    | _, _, _ => "bad-op"
+  | _ => "bad-op"
+
 def stepEst (ws : List String) : String :=
   match ws with
+  | "waitv" :: _ => stepEstWait ws
+  | "waits" :: _ => stepEstWait ws
   | ["max", regime, mx, base, win, tail, ocn, ol, hn, delta] =>
     match parseRat? mx, parseRat? base, (if win = "-" then some [] else parseRats? (win.splitOn ",")),
           (if tail = "-" then some [] else parseRats? (tail.splitOn ",")), parseRat? ocn, parseRat? ol, parseRat? delta with
@@ -216,8 +253,35 @@ def stepEst (ws : List String) : String :=
     | _, _, _, _, _, _, _ => "bad-op"
   | _ => "bad-op"
 
+/-- `seq <cap> <stops csv> <arcs o>d>D,… | -> <the code's sequences a.b.c|… | ->`: the sequences delivered by
+`SequenceGeneratorChannel` against NR.Seq.orders: the same set when the unit has at most `cap` orders, otherwise `cap`
+distinct ones of them. -/
+def stepSeq (ws : List String) : String :=
+  match ws with
+  | [cap, stops, arcs, code] =>
+    let parseArc (a : String) : Option Seq.Arc :=
+      match a.splitOn ">" with
+      | [o, d, dir] => (match o.toNat?, d.toNat? with
+        | some o, some d => some ⟨o, d, dir = "1"⟩
+        | _, _ => none)
+      | _ => none
+    let arcs? : Option (List Seq.Arc) := if arcs = "-" then some [] else allSome ((arcs.splitOn ",").map parseArc)
+    let code? : Option (List (List Nat)) :=
+      if code = "-" then some [] else allSome ((code.splitOn "|").map (fun q => allSome ((q.splitOn ".").map String.toNat?)))
+    match cap.toNat?, parseNatsCsv stops, arcs?, code? with
+    | some cap, some stops, some arcs, some code =>
+      let total := Seq.orders arcs (fun _ => stops) stops.length
+      let distinct := code.eraseDups.length == code.length
+      let sub := code.all (fun c => total.contains c)
+      let ok := if total.length ≤ cap then distinct && sub && code.length == total.length
+                else distinct && sub && code.length == cap
+      if ok then "seq ok" else "seq differs model=" ++ toString total
+    | _, _, _, _ => "bad-op"
+  | _ => "bad-op"
+
 def step (st : State) (line : String) : State × String :=
   match words line with
+  | "seq" :: ws => (st, stepSeq ws)
   | "est" :: ws => (st, stepEst ws)
   | "coll" :: ws => let (c, o) := stepColl st.coll ws; ({ st with coll := c }, o)
   | "gen" :: ws => (st, stepGen ws)
